@@ -25,8 +25,36 @@ fn obj<const N: usize>(kv: [(&str, V); N]) -> V {
     V::Obj(kv.into_iter().map(|(k, v)| (k.to_owned(), v)).collect())
 }
 
+/// Type names that are NOT one of the specially redacted types but look like one: suffix only,
+/// repeated prefix, case change, extra characters. All of them redact like an unknown type.
+pub fn near_miss_types() -> Vec<String> {
+    let mut out = vec![];
+    for t in SPECIAL_TYPES {
+        let x = t.trim_start_matches("m.room.");
+        out.extend([
+            x.to_owned(),
+            format!("m.room.m.room.{x}"),
+            format!("m.room.{x}."),
+            format!("m.room.{x}s"),
+            format!("m.room.{}", x.to_uppercase()),
+            t.to_uppercase(),
+            format!("room.{x}"),
+            format!("m.{x}"),
+            format!(" {t}"),
+            format!("{t} "),
+            format!("org.example.{x}"),
+            format!("{t}.{x}"),
+        ]);
+    }
+    out
+}
+
 pub fn event_type() -> impl Strategy<Value = String> {
     prop_oneof![
+        2 => any::<u16>().prop_map(|i| {
+            let l = near_miss_types();
+            l[(i as usize * l.len()) >> 16].clone()
+        }),
         6 => (0usize..SPECIAL_TYPES.len()).prop_map(|i| SPECIAL_TYPES[i].to_owned()),
         2 => Just("m.room.message".to_owned()),
         1 => Just("m.room.topic".to_owned()),
@@ -281,8 +309,9 @@ pub fn loose_event() -> impl Strategy<Value = Pdu> {
 /// (top level and content) plus unspecified keys at each level.
 pub fn full_table() -> Vec<Pdu> {
     let mut out = vec![];
-    let mut types: Vec<&str> = SPECIAL_TYPES.to_vec();
-    types.extend(["m.room.message", "m.room.server_acl", "org.example.unknown"]);
+    let mut types: Vec<String> = SPECIAL_TYPES.iter().map(|s| (*s).to_owned()).collect();
+    types.extend(["m.room.message", "m.room.server_acl", "org.example.unknown"].map(String::from));
+    types.extend(near_miss_types());
     for version in 1u8..=11 {
         for ty in &types {
             let mut content = BTreeMap::new();
